@@ -11,7 +11,7 @@
 (* every decision breakpoint k*86400 + {-1, 0, 1}.                         *)
 (***************************************************************************)
 EXTENDS Find, TLC, Json
-CONSTANTS Pairs, EmitVec, Literal       \* Pairs: set of encoded ordered pairs start_id * 2000 + end_id
+CONSTANTS Pairs, EmitVec, Literal, CheckAgree       \* Pairs: set of encoded ordered pairs start_id * 2000 + end_id
 VARIABLES vPh, vS, vE
 vars == <<vPh, vS, vE>>
 NdOf(id) == IF id <= 365 THEN <<"J", id>>
@@ -41,10 +41,12 @@ TestDs(sm) == {dd \in {b + e : b \in Breakpoints(sm), e \in {-1, 0, 1}} \cup {0,
 Ty(off, dst) == [off |-> off, dst |-> dst, des |-> IF dst = 0 THEN <<83, 84, 68>> ELSE <<68, 83, 84>>]
 Splits == {<<0, 0, 0>>, <<0, 3600, 7200>>, <<-89999, 93599, 0>>, <<93599, -89999, 604799>>, <<3600, 0, -604799>>, <<-18000, -14400, 90000>>}
 \* rules realising difference dd: <<std offset, dst offset, end time>> from the menu, start time solved for
+SplitSeq == <<<<0, 0, 0>>, <<0, 3600, 7200>>, <<-89999, 93599, 0>>, <<93599, -89999, 604799>>, <<3600, 0, -604799>>, <<-18000, -14400, 90000>>>>
+\* three of the six splits per d (rotating with d), those whose start time stays inside the window
 RulesFor(dd) == {[k |-> "alt", std |-> Ty(sp[1], 0), dst |-> Ty(sp[2], 1), sd |-> NdOf(vS), st |-> dd + sp[1] + sp[3] - sp[2], ed |-> NdOf(vE), et |-> sp[3]] :
-                    sp \in {s \in Splits : TimeOK(dd + s[1] + s[3] - s[2])}}
+                    sp \in {SplitSeq[i] : i \in {j \in 1..6 : (j + dd) % 2 = 0 /\ TimeOK(dd + SplitSeq[j][1] + SplitSeq[j][3] - SplitSeq[j][2])}}}
 \* derived decision = summary-based decision of Rule.tla = (on demand) the literal 400-year definition
-Agree == vPh = 1 => LET sm == Summary IN \A dd \in TestDs(sm) : \A rr \in RulesFor(dd) :
+Agree == (vPh = 1 /\ CheckAgree) => LET sm == Summary IN \A dd \in TestDs(sm) : \A rr \in RulesFor(dd) :
            /\ DD(rr) = dd
            /\ RuleSummary(rr).consistent = ConsistentD(sm, dd)
            /\ (Literal => Consistent(rr) = ConsistentD(sm, dd))
